@@ -344,6 +344,40 @@ theorem dotMat_no_column (o : Op) (x : Mat) (hr : x.nRow = o.nCol) (hc : x.nCol 
     o.dotMat x = .error .valueError := by
   unfold Op.dotMat; simp [hr, hc]
 
+/-- every entry of the regularised matrix scales with the weights and the regularisation -/
+theorem regularized_smul (a : Mat) (reg k : Rat) (i j : Nat) :
+    (regularized (a.smul k) (k * reg)).get i j = k * (regularized a reg).get i j := by
+  by_cases h : i < a.nRow ∧ j < a.nCol
+  · rw [get_regularized (a.smul k) (k * reg) (by simpa using h.1) (by simpa using h.2), get_regularized a reg h.1 h.2,
+      Mat.get_smul, Mat.smul_nCol]
+    ring
+  · rw [Mat.get_of_not_lt (a := regularized (a.smul k) (k * reg)) (by simpa [regularized] using h),
+      Mat.get_of_not_lt (a := regularized a reg) (by simpa [regularized] using h)]
+    ring
+
+/-- **The Normalizer does not depend on the scale of the weights**: `Normalizer(k·A, k·reg)` denotes the same matrix as
+`Normalizer(A, reg)` for every `k > 0` — a node of total weight 1e-9 is normalised like any other (the seeded change
+S04r4 treated weights `≤ 1e-8` as null). The harness runs `normalize`, `Normalizer`, the normalised Laplacian,
+`CoNeighbor` and `get_tfidf` on rescaled matrices against the lines of the unscaled matrix. -/
+theorem normalizer_scale_invariant (a : Mat) (reg k : Rat) (hk : 0 < k) (i j : Nat) :
+    (rowNormalized (regularized (a.smul k) (k * reg))).get i j = (rowNormalized (regularized a reg)).get i j := by
+  unfold rowNormalized
+  rw [Mat.get_scaleRows, Mat.get_scaleRows, vget_pinvVec, vget_pinvVec, regularized_smul]
+  have hs : vget (regularized (a.smul k) (k * reg)).rowSums i = k * vget (regularized a reg).rowSums i := by
+    unfold Mat.rowSums
+    rw [Mat.vget_mulVec, Mat.vget_mulVec]
+    have hc : (regularized (a.smul k) (k * reg)).nCol = (regularized a reg).nCol := by simp [regularized]
+    rw [hc, ← sumTo_mul_left]
+    apply sumTo_congr; intro j _
+    rw [regularized_smul]; ring
+  rw [hs, ← mul_assoc, pinv_mul_pos hk]
+
+/-- `normalize(k·A) = normalize(A)` for every `k > 0` -/
+theorem normalize_scale_invariant (a : Mat) (k : Rat) (hk : 0 < k) (i j : Nat) :
+    (normalize1 (a.smul k)).get i j = (normalize1 a).get i j := normalize1_smul a k hk i j
+
+example : normalize1 (Mat.smul (1/1000000000) ⟨2, 2, [[1, 3], [0, 2]]⟩) = ⟨2, 2, [[1/4, 3/4], [0, 1]]⟩ := by decide +kernel
+
 /-- before the repair `Normalizer._transpose` returned the operator itself: on the asymmetric
 `A = [[0,2,0],[0,0,0],[1,0,3]]` the product `N x` differs from `Nᵀ x` (witness replayed in corpus/C15.jsonl) -/
 theorem normalizer_transpose_pinned_wrong :
